@@ -15,6 +15,7 @@ instants = [  # rank = index+1 ; strictly increasing
     "2020-01-01T00:00:00Z",
     "2020-06-01T12:30:00.5Z",
     "2021-11-11T11:11:11.000000011Z",
+    "2077-05-02T07:34:33.709551616Z",  # = the first instant + 2^64 ns: the two have the same (wrapped) UnixNano(); only looked up, never stored
     "2525-07-04T12:00:00.123456789Z",  # after 2262-04-11: UnixNano() not defined either
 ]
 # concrete spellings of instants: (rank, text). The first spelling of each rank is the canonical one.
@@ -23,7 +24,7 @@ spellings = [(i + 1, t) for i, t in enumerate(instants)] + [
     (5, "2020-06-01T05:30:00.5-07:00"),
     (5, "2020-06-01T18:00:00.5+05:30"),  # a non-whole-hour offset of the same instant
     (1, "1492-10-12T10:00:00+02:00"),  # the out-of-range instants in another zone as well
-    (7, "2525-07-04T05:00:00.123456789-07:00"),
+    (8, "2525-07-04T05:00:00.123456789-07:00"),
 ]
 
 nodes = [  # abstract = concrete
@@ -48,7 +49,8 @@ preds = [
     {"id": "zz", "kind": "imm", "n": 0},  # 11 never stored
     {"id": "p", "kind": "tmp", "n": 2},  # 12 anchored at the Unix epoch
     {"id": "p", "kind": "tmp", "n": 1},  # 13 anchored in 1492 (outside the UnixNano range)
-    {"id": "q", "kind": "tmp", "n": 7},  # 14 anchored in 2525 (outside the UnixNano range)
+    {"id": "q", "kind": "tmp", "n": 8},  # 14 anchored in 2525 (outside the UnixNano range)
+    {"id": "p", "kind": "tmp", "n": 7},  # 15 never stored: 2^64 ns after predicate 13 (same wrapped UnixNano, a different instant)
 ]
 # concrete predicate spellings: abs index + spelling index (0 for immutable)
 cpreds = []
